@@ -16,7 +16,7 @@ TECHNIQUE = ('model checking: bounded-exhaustive enumeration of residual/mask/op
              'on small 1-3-D arrays for djs_maskinterp/aesthetics/djs_median/skymask, against set-definition oracles')
 LEVEL_TEXT = ('every combination inside the stated menus (n=5 residual vectors x all input/output masks x scale x limits x '
               'sticky x grow; all 2^n masks on 1-D n<=10, 2-D 3x4/4x3, 3-D 2x2x3/2x3x3 arrays; all 2^8 zero patterns; all '
-              '2^16 flag patterns on 2x8 pixels x 4 dtypes x ngrow 0..3) was executed on the real functions and compared '
+              '2^16 flag patterns on 2x8 pixels x 4 dtypes x ngrow 1..2 and 6x2^8 patterns x ngrow 0..3) was executed on the real functions and compared '
               'with an independent definition of which pixels must change')
 LEVEL_NOTE = ('nothing is claimed outside the menus: maxrej/groupdim/groupsize/groupbadpix, multi-dimensional djs_reject, '
               'even median widths, widths larger than the array, negative inverse variance, sigma=0. Trusted: the oracles '
